@@ -31,6 +31,9 @@ type menuOpts struct {
 	sysFlavours bool
 	// undisciplined adds role messages the system contract's own discipline (A7) excludes
 	undisciplined bool
+	// nftFreeze adds ESDTFreeze / ESDTUnFreeze of a single NFT holding (argument token||nonce, the
+	// entry whose own flag the NFT functions read), for holdings that exist
+	nftFreeze bool
 }
 
 func held(w *world.World, a []byte, suffix string) int64 {
@@ -255,6 +258,9 @@ func freezeMenu(w *world.World, o menuOpts, withWipe bool) []world.Action {
 			}
 		}
 	}
+	if o.nftFreeze {
+		acts = append(acts, nftFreezeMenu(w, accts)...)
+	}
 	for sh := 0; sh < o.shards; sh++ {
 		for _, tok := range [][]byte{uni.F, uni.S} {
 			fn := vmcommon.BuiltInFunctionESDTPause
@@ -265,6 +271,25 @@ func freezeMenu(w *world.World, o menuOpts, withWipe bool) []world.Action {
 			if o.sysFlavours && o.shards > 1 {
 				acts = append(acts, uni.PauseCallAt(sh, fn, tok))
 			}
+		}
+	}
+	return acts
+}
+
+// nftFreezeMenu: the system contract freezes / releases one held NFT of S (nonces 1 and 2).
+func nftFreezeMenu(w *world.World, accts [][]byte) []world.Action {
+	var acts []world.Action
+	for _, a := range accts {
+		for n := uint64(1); n <= 2; n++ {
+			key := string(uni.S) + spec.NonceSuffix(n)
+			if held(w, a, key) <= 0 {
+				continue
+			}
+			fn := vmcommon.BuiltInFunctionESDTFreeze
+			if spec.Frozen(w.Get(a), key) {
+				fn = vmcommon.BuiltInFunctionESDTUnFreeze
+			}
+			acts = append(acts, uni.SysCall(a, fn, []byte(key)))
 		}
 	}
 	return acts
